@@ -1,7 +1,11 @@
 /* C04 harness: runs sc_allgather (and the subgroup routine) of the real libsc on the simulated MPI.
    stdin: one run per line:  <P> <seed> <adversary> <blocksize> <dataseed> <mode>
      mode 0: sc_allgather on the world; mode 1: sc_allgather_recursive on a subgroup [base, base+g) given as
-     two further numbers <base> <g> (ranks outside the group do nothing).
+     two further numbers <base> <g> (ranks outside the group do nothing);
+     mode 2: a HISTORY on one communicator, no barrier between the calls: <base> <g> are ignored, then <ncalls> and per call
+     <entry> <blocksize> <base> <g>  (entry 0 sc_allgather, 1 sc_allgather_recursive, 2 sc_allgather_alltoall on [base, base+g));
+     the blocks of call k come from data seed dseed + 7919 * k; OUT is the concatenation of the receive buffers of all calls
+     (each blocksize * P bytes, preset to 0xEE).
    stdout per run:  RUN <i> rc=<code> steps=<n>
                     OUT <rank> <hex of recvbuf>        (one per rank)
                     TRACE-BEGIN / trace lines / TRACE-END
@@ -10,7 +14,9 @@
 #include <sc_allgather.h>
 #include <simmpi.h>
 
-typedef struct { int bs; unsigned dseed; int mode, base, g; unsigned char **out; } arg_t;
+#define MAXCALLS 8
+typedef struct { int bs; unsigned dseed; int mode, base, g; unsigned char **out;
+                 int ncalls, ce[MAXCALLS], cbs[MAXCALLS], cbase[MAXCALLS], cg[MAXCALLS]; size_t total; } arg_t;
 
 static unsigned char blk_byte (unsigned dseed, int rank, int k)
 {
@@ -19,24 +25,56 @@ static unsigned char blk_byte (unsigned dseed, int rank, int k)
   return (unsigned char) (x & 0xff);
 }
 
+/* sc_allgather with send and receive datatypes of (possibly) different element size and equal total length, chosen from the
+   data seed: the block of bs bytes is described as bs/ts items on the send and bs/tr items on the receive side */
+static void top_call (unsigned char *send, unsigned char *recv, int bs, unsigned dseed)
+{
+  static const int tsz[4] = { 1, 2, 4, 8 };
+  sc_MPI_Datatype ty[4];
+  int is = (int) (dseed % 4), ir = (int) ((dseed / 4) % 4);
+  ty[0] = sc_MPI_BYTE; ty[1] = sc_MPI_SHORT; ty[2] = sc_MPI_INT; ty[3] = sc_MPI_DOUBLE;
+  while (bs % tsz[is] != 0) --is;
+  while (bs % tsz[ir] != 0) --ir;
+  sc_allgather (send, bs / tsz[is], ty[is], recv, bs / tsz[ir], ty[ir], sc_MPI_COMM_WORLD);
+}
+
+static void history_main (int rank, int size, arg_t *a)
+{
+  unsigned char *all = SC_ALLOC (unsigned char, a->total + 1);
+  unsigned char *recv = all;
+  memset (all, 0xEE, a->total + 1);
+  for (int c = 0; c < a->ncalls; ++c) {
+    int bs = a->cbs[c], base = a->cbase[c], g = a->cg[c];
+    unsigned ds = a->dseed + 7919u * (unsigned) c;
+    unsigned char *send = SC_ALLOC (unsigned char, bs + 1);
+    for (int k = 0; k < bs; ++k) send[k] = blk_byte (ds, rank, k);
+    if (a->ce[c] == 0) {
+      top_call (send, recv, bs, ds);
+    }
+    else if (rank >= base && rank < base + g) {
+      memcpy (recv + (size_t) rank * bs, send, bs);
+      if (a->ce[c] == 1)
+        sc_allgather_recursive (sc_MPI_COMM_WORLD, (char *) recv + (size_t) base * bs, bs, g, rank - base, rank);
+      else
+        sc_allgather_alltoall (sc_MPI_COMM_WORLD, (char *) recv + (size_t) base * bs, bs, g, rank - base, rank);
+    }
+    SC_FREE (send);
+    recv += (size_t) bs * size;
+  }
+  a->out[rank] = all;
+}
+
 static void rank_main (int rank, int size, void *varg)
 {
   arg_t *a = (arg_t *) varg;
+  if (a->mode == 2) { history_main (rank, size, a); return; }
   int bs = a->bs;
   unsigned char *send = SC_ALLOC (unsigned char, bs + 1);
   unsigned char *recv = SC_ALLOC (unsigned char, (size_t) bs * size + 1);
   memset (recv, 0xEE, (size_t) bs * size + 1);
   for (int k = 0; k < bs; ++k) send[k] = blk_byte (a->dseed, rank, k);
   if (a->mode == 0) {
-    /* send and receive datatypes of (possibly) different element size and equal total length, chosen from the data
-       seed: the block of bs bytes is described as bs/ts items on the send and bs/tr items on the receive side */
-    static const int tsz[4] = { 1, 2, 4, 8 };
-    sc_MPI_Datatype ty[4];
-    int is = (int) (a->dseed % 4), ir = (int) ((a->dseed / 4) % 4);
-    ty[0] = sc_MPI_BYTE; ty[1] = sc_MPI_SHORT; ty[2] = sc_MPI_INT; ty[3] = sc_MPI_DOUBLE;
-    while (bs % tsz[is] != 0) --is;
-    while (bs % tsz[ir] != 0) --ir;
-    sc_allgather (send, bs / tsz[is], ty[is], recv, bs / tsz[ir], ty[ir], sc_MPI_COMM_WORLD);
+    top_call (send, recv, bs, a->dseed);
   }
   else if (rank >= a->base && rank < a->base + a->g) {
     memcpy (recv + (size_t) rank * bs, send, bs);
@@ -48,7 +86,7 @@ static void rank_main (int rank, int size, void *varg)
 
 int main (void)
 {
-  char line[256], tpath[256];
+  char line[2048], tpath[256];
   int run = 0;
   sc_init (sc_MPI_COMM_NULL, 0, 0, NULL, SC_LP_SILENT);
   sc_set_abort_handler (simmpi_abort_handler);
@@ -57,7 +95,21 @@ int main (void)
     int P, adv, bs, mode, base = 0, g = 0; unsigned long seed; unsigned dseed;
     int n = sscanf (line, "%d %lu %d %d %u %d %d %d", &P, &seed, &adv, &bs, &dseed, &mode, &base, &g);
     if (n < 6) continue;
-    arg_t a; a.bs = bs; a.dseed = dseed; a.mode = mode; a.base = base; a.g = g;
+    arg_t a; memset (&a, 0, sizeof a); a.bs = bs; a.dseed = dseed; a.mode = mode; a.base = base; a.g = g;
+    a.total = (size_t) bs * P;
+    if (mode == 2) {
+      /* skip the 8 leading fields, then <ncalls> and 4 numbers per call */
+      char *p = line; int f = 0;
+      while (f < 8 && *p) { while (*p == ' ') ++p; while (*p && *p != ' ' && *p != '\n') ++p; ++f; }
+      a.ncalls = (int) strtol (p, &p, 10);
+      if (n < 8 || a.ncalls < 1 || a.ncalls > MAXCALLS) continue;
+      a.total = 0;
+      for (int c = 0; c < a.ncalls; ++c) {
+        a.ce[c] = (int) strtol (p, &p, 10); a.cbs[c] = (int) strtol (p, &p, 10);
+        a.cbase[c] = (int) strtol (p, &p, 10); a.cg[c] = (int) strtol (p, &p, 10);
+        a.total += (size_t) a.cbs[c] * P;
+      }
+    }
     a.out = (unsigned char **) calloc ((size_t) P, sizeof (unsigned char *));
     int mem0 = (sc_memory_status (-1) + sc_memory_status (sc_package_id));
     simmpi_opts o; simmpi_report rep;
@@ -68,7 +120,7 @@ int main (void)
     if (rc) { char *t = rep.text; for (char *p = t; *p; ++p) if (*p == '\n') *p = '~'; printf ("REPORT %s\n", t); }
     for (int r = 0; r < P; ++r) {
       printf ("OUT %d ", r);
-      if (a.out[r]) { for (int k = 0; k < bs * P; ++k) printf ("%02x", a.out[r][k]); if (bs * P == 0) printf ("-"); SC_FREE (a.out[r]); }
+      if (a.out[r]) { for (size_t k = 0; k < a.total; ++k) printf ("%02x", a.out[r][k]); if (a.total == 0) printf ("-"); SC_FREE (a.out[r]); }
       else printf ("none");
       printf ("\n");
     }
